@@ -113,6 +113,14 @@ impl<'a> StringLexer<'a> {
                 }
             },
 
+            b'\r' => {
+                // an unescaped end-of-line marker (CR or CR LF) reads as a single LF
+                if let Ok(b'\n') = self.peek_byte() {
+                    let _ = self.next_byte();
+                }
+                Ok(Some(b'\n'))
+            },
+
             c => Ok(Some(c))
 
         }
